@@ -166,7 +166,7 @@ def _parse(res, dedupe):
             in_err = True
         if in_err:
             err.append(ln)
-        m = re.match(r"^<(\w+) line \d+, col \d+ to line \d+, col \d+ of module (\w+)>: (\d+):(\d+)", ln)
+        m = re.match(r"^<(\w+) line \d+, col \d+ to line \d+, col \d+ of module (\w+)(?: \([\d ]+\))?>: (\d+):(\d+)", ln)
         if m:
             res.coverage[m.group(2) + "." + m.group(1)] = (int(m.group(3)), int(m.group(4)))
         if "Model checking completed. No error has been found" in ln:
